@@ -31,7 +31,7 @@ REQUIRED_CELLS = {'quick': ['op:vle.TP', 'op:vle.TV', 'op:vle.TH', 'op:vle.TS', 
                             'op:vle.Tx', 'op:vle.Ty', 'op:vle.Px', 'op:vle.Py', 'op:lle', 'op:sle', 'op:vlle', 'op:vlle-ctor',
                             'op:mix_vle', 'has:light', 'has:heavy', 'has:extra-rows', 'step>0',
                             'vedge:PV:V=1:heavy', 'vedge:PV:V=0:heavy', 'vedge:TV:V=1:heavy', 'vedge:TV:V=0:heavy',
-                            'vedge:PV:V=1:noheavy', 'vedge:TV:V=0:noheavy', 'vlle:start-with-L'],
+                            'vedge:PV:V=1:noheavy', 'vedge:TV:V=0:noheavy', 'vlle:start-with-L', 'shgo:light', 'op:lle.single_loop'],
                   'thorough': []}
 
 T_MIN, T_MAX = 250.0, 500.0
@@ -331,11 +331,16 @@ def op_lle(ch, ctx, th, s, step, tag):
     present = [th.chemicals.IDs[i] for i in np.flatnonzero(dense(s).sum(axis=0))]
     tc = ch.choice(tag + 'top', [None] + present)
     if tc: kw['top_chemical'] = tc
-    ctx.cell('op:lle')
+    # documented keywords of LLE.__call__: use_cache (reuse remembered coefficients) and single_loop (one-loop solver)
+    single_loop, use_cache = ch.choice(tag + 'opts', [[False, True], [True, True], [True, False], [False, False]])
+    if single_loop: kw['single_loop'] = True
+    if not use_cache: kw['use_cache'] = False
+    ctx.cell('op:lle' + ('.single_loop' if single_loop else ''))
+    if single_loop: ctx.cell('op:lle')
     before = dense(s).sum(axis=0)
-    ok = guarded(ctx, 'lle', region, lambda: s.lle(T, **kw))
-    if ok: check_state(ctx, s, before, 'lle', region, False)
-    return ok, ['lle', bool(tc), 'P' in kw]
+    ok = guarded(ctx, 'lle' + ('.single_loop' if single_loop else ''), region, lambda: s.lle(T, **kw))
+    if ok: check_state(ctx, s, before, 'lle' + ('.single_loop' if single_loop else ''), region, False)
+    return ok, ['lle', bool(tc), 'P' in kw, single_loop, use_cache]
 
 
 def op_sle(ch, ctx, th, s, step, tag, state):
@@ -410,7 +415,7 @@ def prop_history(ch, ctx):
     pid = ch.choice('pkg', ['L1', 'L1', 'L2', 'L3', 'L4', 'L5'])
     th = package(pid)
     tmo.settings.set_thermo(th)
-    first = ch.choice('first', ['vle'] * 6 + ['lle'])
+    first = ch.choice('first', ['vle'] * 5 + ['lle'] * 2)
     need2 = first == 'vle' and pid != 'L3' and ch.int('two', 0, 2) == 0
     names, lk, flows = draw_material(ch, pid, need_two_volatile=need2)
     s, info = draw_container(ch, th, flows)
@@ -591,9 +596,52 @@ def prop_vedge(ch, ctx):
     ctx.nontriv(['vedge', pid, sorted(flows), info['kind'], info['phases'], pair, V])
 
 
+def prop_shgo(ch, ctx):
+    """Quick-tier stratum for the global-optimiser method (`vle.method = 'shgo'`, T,P only): 2-3 volatile chemicals with a
+    gas-locked chemical present, at a T,P strictly inside the (Raoult) two-phase window of the volatile part.  One call
+    costs 0.01-0.6 s."""
+    from vlib.c04_refthermo import RefFlash
+    pid = ch.choice('pkg', ['L2', 'L1', 'L5'])
+    th = package(pid)
+    tmo.settings.set_thermo(th)
+    vol, locked = pkg_lists(pid)
+    n = ch.int('nvol', 2, 3)
+    names = ch.subset('vol', vol, min_size=n, max_size=n)
+    light = [k for k, (ph, _) in locked.items() if ph == 'g']
+    heavy = [k for k, (ph, _) in locked.items() if ph != 'g']
+    lk = ch.subset('light', light, min_size=0 if ch.int('nolight', 0, 3) == 0 else 1, max_size=len(light))
+    lk += ch.subset('heavy', heavy, min_size=0, max_size=len(heavy))
+    flows = {}
+    for k in list(names) + lk:
+        sp = ch.choice('F.special.' + k, [None, 1.0, 10.0])
+        flows[k] = ch.logfloat('F.' + k, -2, 2) if sp is None else sp
+    s, info = draw_container(ch, th, flows, allow_extra=False)
+    chems = th.chemicals
+    order = sorted(names, key=chems.index)
+    z = np.array([flows[k] for k in order]); z = z / z.sum()
+    ref = RefFlash([chems[k] for k in order], th, ideal=True)
+    T = ch.float('T', 290.0, 420.0)
+    Pb = ref.bubble_P(z, T)[0]; Pd = ref.dew_P(z, T)[0]
+    P = float(Pd + ch.float('theta', 0.05, 0.95) * (Pb - Pd))
+    region, nv, li, he = region_of(th, s, 0)
+    ctx.cell('op:vle.TP.shgo'); ctx.cell('method:shgo')
+    if li: ctx.cell('shgo:light')
+    before = dense(s).sum(axis=0)
+
+    def call():
+        v = s.vle
+        v.method = 'shgo'
+        v(T=T, P=P)
+    if not guarded(ctx, 'vle.TP.shgo', region, call):
+        ctx.reject('documented rejection')
+    check_state(ctx, s, before, 'vle.TP.shgo', region, True)
+    ctx.nontriv(['shgo', pid, sorted(flows), info['kind'], info['phases']])
+
+
 PROPS = {
     'history': (prop_history, 1100, 50000),
     'vedge': (prop_vedge, 200, 8000),
+    'shgo': (prop_shgo, 48, 800, {'shrink': False}),
     'sle': (prop_sle, 250, 12000),
     'vlle': (prop_vlle, 96, 1500, {'shrink': False}),
     'mix_vle': (prop_mix, 250, 10000),
